@@ -153,6 +153,27 @@ class Laws(Sub):
                 L, Rr = I.reshape(X.shape) @ X, X @ I.reshape(X.shape)
             close("identity_left", tu.npy(L), Xn, max(1.0, float(np.abs(Xn).max())), nm + " @ X vs X")
             close("identity_right", tu.npy(Rr), Xn, max(1.0, float(np.abs(Xn).max())), "X @ " + nm + " vs X")
+        # (a') the same laws on BATCHES whose second operand broadcasts along a non-leading batch dimension: Act with points (2,1,k)
+        # and @ with a right factor of lshape (2,1) against a left operand of lshape (2,2) built from X, Y, Z, X - per item the
+        # reference matrices (a tiled instead of a broadcast second operand keeps shape and dtype but pairs the wrong items)
+        with rec.sut("batched Act / @ with a broadcasting second operand"):
+            Xb = pp.LieTensor(torch.stack([X.tensor(), Y.tensor(), Z.tensor(), X.tensor()], 0).reshape(2, 2, -1), ltype=tu.LT[lt])
+            Yb = pp.LieTensor(torch.stack([Z.tensor(), Y.tensor()], 0).reshape(2, 1, -1), ltype=tu.LT[lt])
+            pb3 = torch.stack([tu.tens(case["p"], dtype), -2.0 * tu.tens(case["p"], dtype) + 0.5], 0).reshape(2, 1, 3)
+            pb4 = torch.cat([pb3, torch.tensor([[[case["w"]]], [[1.0]]], dtype=tu.TD[dtype])], -1)
+            ab3, ab4, mb = Xb.Act(pb3), Xb.Act(pb4), Xb @ Yb
+        Ms = [[MX, MY], [MZ, MX]]
+        Mr = [MZ, MY]
+        pbn3, pbn4 = tu.npy(pb3), tu.npy(pb4)
+        if rec.check(tuple(ab3.shape) == (2, 2, 3) and tuple(ab4.shape) == (2, 2, 4) and tuple(mb.shape) == (2, 2, X.shape[-1]), "batched_shape",
+                     "batched Act / @ result shapes %s %s %s" % (tuple(ab3.shape), tuple(ab4.shape), tuple(mb.shape))):
+            for i_ in range(2):
+                for j_ in range(2):
+                    Mij = Ms[i_][j_]
+                    sp_ = 1 + float(np.abs(pbn4[i_, 0]).sum())
+                    close("batched_act3", tu.npy(ab3)[i_, j_], (Mij @ np.append(pbn3[i_, 0], 1.0))[:3], _inf(Mij) * sp_, "Xb.Act(p) item (%d,%d), p broadcast along dim 1" % (i_, j_))
+                    close("batched_act4", tu.npy(ab4)[i_, j_], Mij @ pbn4[i_, 0], _inf(Mij) * sp_, "Xb.Act(p4) item (%d,%d), p4 broadcast along dim 1" % (i_, j_))
+                    close("batched_mul", _mat_of(lt, tu.npy(mb)[i_, j_]), Mij @ Mr[i_], _inf(Mij) * _inf(Mr[i_]), "(Xb @ Yb) item (%d,%d), Yb broadcast along dim 1" % (i_, j_))
         # (b') identities have no memory: an identity element that was updated in place (add_, the documented in-place update - what
         # an optimiser does to a parameter initialised with identity_X()) must not change what the constructors return next
         # (a shared template / cache handed out by reference - seed C03e).  All spellings and sizes of the request.
